@@ -224,64 +224,45 @@ impl IntoSqlBuilder for NegList {
 
 impl IntoSqlBuilder for Member {
     fn into_sql_builder(&self) -> Result<Box<dyn SqlBuilder>, ToSqlError> {
-        let primary_builder = self.primary.into_sql_builder()?;
+        let mut builder = self.primary.into_sql_builder()?;
+        // members that are already part of `builder`
+        let mut done = 0;
 
-        // Check if this is a single function call
-        if self.member.len() == 1 {
-            if let MemberPrime::Call { call } = self.member[0].node() {
-                // Get the function arguments (reversed to fix parser ordering)
-                let mut args = call
-                    .node()
-                    .exprs
-                    .iter()
-                    .map(|expr| expr.into_sql_builder())
-                    .collect::<Result<Vec<_>, ToSqlError>>()?;
-                args.reverse();
+        // A type name applied to at most one argument is a type casting operation,
+        // whatever follows it in the chain
+        if let (Primary::Ident(ident), Some(MemberPrime::Call { call })) =
+            (self.primary.node(), self.member.first().map(|m| m.node()))
+        {
+            let sql_type = match ident.0.as_str() {
+                "int" => Some("integer"),
+                "uint" => Some("bigint"),
+                "float" => Some("double precision"),
+                "double" => Some("double precision"),
+                "string" => Some("text"),
+                "bool" => Some("boolean"),
+                "bytes" => Some("bytea"),
+                "timestamp" => Some("timestamp"),
+                "duration" => Some("interval"),
+                _ => None,
+            };
 
-                // Check if this is a type casting operation
-                if let Primary::Ident(ident) = self.primary.node() {
-                    let ident_name = &ident.0;
-                    let sql_type = match ident_name.as_str() {
-                        "int" => Some("integer"),
-                        "uint" => Some("bigint"),
-                        "float" => Some("double precision"),
-                        "double" => Some("double precision"),
-                        "string" => Some("text"),
-                        "bool" => Some("boolean"),
-                        "bytes" => Some("bytea"),
-                        "timestamp" => Some("timestamp"),
-                        "duration" => Some("interval"),
-                        _ => None,
-                    };
-
-                    if let Some(cast_type) = sql_type {
-                        // This is a type casting operation
-                        if args.len() == 1 {
-                            return Ok(Box::new(CastBuilder {
-                                value: args.remove(0),
-                                cast_type: StaticSqlBuilder::boxed(cast_type),
-                            }));
-                        } else if args.is_empty() {
+            if let Some(cast_type) = sql_type {
+                let exprs = &call.node().exprs;
+                if exprs.len() <= 1 {
+                    builder = Box::new(CastBuilder {
+                        value: match exprs.first() {
+                            Some(expr) => expr.into_sql_builder()?,
                             // Handle cases like int() - cast null to type
-                            return Ok(Box::new(CastBuilder {
-                                value: StaticSqlBuilder::boxed("NULL"),
-                                cast_type: StaticSqlBuilder::boxed(cast_type),
-                            }));
-                        }
-                    }
+                            None => StaticSqlBuilder::boxed("NULL"),
+                        },
+                        cast_type: StaticSqlBuilder::boxed(cast_type),
+                    });
+                    done = 1;
                 }
-
-                // Not a type cast, this is a regular function call
-                return Ok(Box::new(FunctionCallBuilder {
-                    primary: primary_builder,
-                    args: args,
-                }));
             }
         }
 
-        let mut builder = primary_builder;
-
-        for (i, member) in self.member.iter().enumerate() {
+        for (i, member) in self.member.iter().enumerate().skip(done) {
             match member.node() {
                 MemberPrime::MemberAccess { ident } => {
                     builder = Box::new(JsonMemberAccessBuilder {
@@ -313,9 +294,7 @@ impl IntoSqlBuilder for Member {
             }
         }
 
-        return Ok(builder);
-
-        // Handle as member access chain - check if this is JSON member access
+        Ok(builder)
     }
 }
 
